@@ -142,6 +142,7 @@ pub fn check_transient(s: &Subject, api: Api) -> (Vec<(String, String)>, u64) {
     let seq: Vec<u64> = ids.iter().chain(ids.iter()).chain(ids.iter().rev()).copied().collect();
     let data_off = p.header.data_offset;
     // one session; returns per-lookup (id, result, read ranges) and the number of calls used by open
+    let rewritten: std::sync::Mutex<Option<Result<Vec<u8>, String>>> = std::sync::Mutex::new(None);
     let session = |ch: Box<dyn crate::env::Chooser>| -> Result<(usize, usize, Vec<(u64, Result<Option<Vec<u8>>, String>, Vec<(u64, u64)>)>), String> {
         let hd = Handle::new(s.bytes.clone(), ch);
         let r = catch(|| -> Result<(usize, Vec<(u64, Result<Option<Vec<u8>>, String>, Vec<(u64, u64)>)>), String> {
@@ -156,6 +157,9 @@ pub fn check_transient(s: &Subject, api: Api) -> (Vec<(String, String)>, u64) {
                         out.push((*id, g, read_ranges(&hd.log())));
                         hd.clear_log();
                     }
+                    // finally save the archive through the same (now healthy) backing reader
+                    let mut o = std::io::Cursor::new(Vec::new());
+                    *rewritten.lock().unwrap() = Some(pm.to_writer(&mut o).map(|_| o.into_inner()).map_err(|e| e.to_string()));
                     Ok((oc, out))
                 }
                 Api::Async => {
@@ -167,6 +171,8 @@ pub fn check_transient(s: &Subject, api: Api) -> (Vec<(String, String)>, u64) {
                         out.push((*id, g, read_ranges(&hd.log())));
                         hd.clear_log();
                     }
+                    let mut o = futures::io::Cursor::new(Vec::new());
+                    *rewritten.lock().unwrap() = Some(block_on(pm.to_async_writer(&mut o)).map(|_| o.into_inner()).map_err(|e| e.to_string()));
                     Ok((oc, out))
                 }
             }
@@ -178,6 +184,7 @@ pub fn check_transient(s: &Subject, api: Api) -> (Vec<(String, String)>, u64) {
         }
     };
     let Ok((open_calls, total, _)) = session(Box::new(DefaultChooser)) else { return (bad, 0) };
+    let clean_rewrite = rewritten.lock().unwrap().take();
     let mut n = 0u64;
     for fail_at in open_calls..total {
         for short in [None, Some(1usize), Some(2)] {
@@ -189,6 +196,12 @@ pub fn check_transient(s: &Subject, api: Api) -> (Vec<(String, String)>, u64) {
             n += 1;
             match session(Box::new(Transient { short_at, fail_at })) {
                 Ok((_, _, lookups)) => {
+                    // a save after the failed lookup must produce the same archive as a save without any failure
+                    if let (Some(Ok(clean)), Some(Ok(now))) = (clean_rewrite.as_ref(), rewritten.lock().unwrap().take().as_ref()) {
+                        if clean != now {
+                            bad.push(("save-after-failed-lookup-differs".to_string(), format!("[{} transient failure at call {fail_at}, short {short_at:?}] the archive saved afterwards has {} bytes and differs from the one saved without a failure ({} bytes)", api.name(), now.len(), clean.len())));
+                        }
+                    }
                     for (k, (id, got, rr)) in lookups.iter().enumerate() {
                         let (o, l) = p.tiles[id];
                         let want = (data_off + o, data_off + o + u64::from(l));
